@@ -139,9 +139,9 @@ Print Assumptions C09_restarted_committed_usable_as_parent.
    the internal commit (marker 5): the image holds the new active snapshot without remote mark; a strict restart
    re-mounts exactly layers 1 and 2 with their stored labels and fails iff one of them cannot be mounted. *)
 Example C09_nonvacuous :
-  let h := [Prepare 0 None (mkL (Some 1) false 0 0) true []; Prepare 0 (Some 1) (mkL (Some 2) false 0 0) true []] in
+  let h := [Prepare 0 None (mkL (Some 1) false 0 0 None) true []; Prepare 0 (Some 1) (mkL (Some 2) false 0 0 None) true []] in
   let s := exec (init false) h in
-  let o := Prepare 4 (Some 2) (mkL (Some 5) false 0 0) true [] in
+  let o := Prepare 4 (Some 2) (mkL (Some 5) false 0 0 None) true [] in
   map fst (crash_points [] s o) = [1; 2; 3; 4; 5; 7; 6] /\
   (exists img, nth_error (crash_points [] s o) 4 = Some (5, img) /\
      map fst (mounts (fst (restart false false [] img))) = [2; 1] /\
